@@ -285,6 +285,13 @@ type KeyMTOnly int
 
 func (k KeyMTOnly) MarshalText() ([]byte, error) { return []byte("mt" + strconv.Itoa(int(k))), nil }
 
+// struct key with MarshalText that can hold a NaN: such a key is never found by a map lookup
+type KeyNaN struct{ F float64 }
+
+func (k KeyNaN) MarshalText() ([]byte, error) {
+	return []byte("f" + strconv.FormatFloat(k.F, 'g', -1, 64)), nil
+}
+
 // the same struct type reached as a map value (not addressable) and as a slice element (addressable): the
 // pointer-receiver methods of its field apply in the second position only
 type HasPM struct{ F PMStruct }
